@@ -23,6 +23,7 @@ import (
 	"sort"
 	"strconv"
 	"strings"
+	"sync"
 )
 
 // MaxIdx is the library's default bound on list indices in paths.
@@ -53,6 +54,55 @@ func ClassifySeg(s string) Seg {
 	}
 	return NameSeg(s)
 }
+
+// IndexSpellings lists path segments that, by key classification (vii), all
+// denote list index i: every integer syntax of strconv.ParseInt with base 0
+// (decimal, a leading 0 = octal, 0o/0O, 0x/0X, 0b/0B, digit separators) and an
+// explicit sign ("+i", and "-0" for zero). The first entry is the plain
+// decimal spelling. None of them contains a path separator.
+func IndexSpellings(i int) []string {
+	spellMu.Lock()
+	defer spellMu.Unlock()
+	if sp, ok := spellCache[i]; ok {
+		return sp
+	}
+	sp := indexSpellings(i)
+	spellCache[i] = sp
+	return sp
+}
+
+var (
+	spellMu    sync.Mutex
+	spellCache = map[int][]string{}
+)
+
+func indexSpellings(i int) []string {
+	dec := strconv.Itoa(i)
+	oct := strconv.FormatInt(int64(i), 8)
+	hex := strconv.FormatInt(int64(i), 16)
+	bin := strconv.FormatInt(int64(i), 2)
+	out := []string{
+		dec, "+" + dec,
+		"0" + oct, "00" + oct, "0_" + oct, "0o" + oct, "0O" + oct, "+0" + oct,
+		"0x" + hex, "0X" + strings.ToUpper(hex), "0x0" + hex, "0x_" + hex, "+0x" + hex,
+		"0b" + bin, "0B" + bin, "0b_" + bin,
+	}
+	if i == 0 {
+		out = append(out, "-0", "-0x0", "-00")
+	}
+	if len(dec) > 1 {
+		out = append(out, dec[:1]+"_"+dec[1:])
+	}
+	if len(bin) > 1 {
+		out = append(out, "0b"+bin[:1]+"_"+bin[1:])
+	}
+	return out
+}
+
+// NearIndexNames are segments that look like numbers but are NOT list indices
+// by classification (vii): ParseInt(base 0) rejects them, or the value is
+// negative. They are ordinary named keys.
+var NearIndexNames = []string{"08", "09", "0x", "0b2", "1e0", "1_", "_1", "1__0", "0_x1", "-1", "+", "+-1", " 1", "1 ", "１", "0o8", "0xg", "1025", "0x401"}
 
 // ParseAddr turns a (name, idx) address into segments. sep == "" means no
 // path separator is configured (the name is one segment). An empty name
